@@ -124,6 +124,29 @@ def echo_slow(*args, **kwargs):
     return echo(*args, **kwargs)
 
 
+def _explode(pid):
+    if os.getpid() != pid:
+        raise RuntimeError('this result cannot be rebuilt outside the process that made it')
+    return 'exploding'
+
+
+class BadRebuild:
+    """A result the receiving side cannot unpickle."""
+
+    def __init__(self):
+        self.pid = os.getpid()
+
+    def __reduce__(self):
+        return (_explode, (self.pid,))
+
+
+def bad_result(*args, **kwargs):
+    """Target whose result cannot be rebuilt by the parent when asked for it ('@badresult'), else an echo."""
+    if args and args[0] == '@badresult':
+        return BadRebuild()
+    return (list(args), dict(kwargs))
+
+
 def ident(x=None):
     return x
 
@@ -133,3 +156,26 @@ def sleeper(flag):
     while not os.path.exists(flag):
         time.sleep(0.005)
     return 'done'
+
+
+# Workers that implement their work by overriding run() (target=None, run=True), as Worker's documentation suggests.
+# (pyworkers is importable wherever this module is imported: the drivers put the repository on the path first.)
+try:
+    from pyworkers.persistent_process import PersistentProcessWorker as _PP
+    from pyworkers.persistent_remote import PersistentRemoteWorker as _PR
+    from pyworkers.persistent_thread import PersistentThreadWorker as _PT
+
+    class OwnRunThread(_PT):
+        def run(self, *args, **kwargs):
+            return echo(*args, **kwargs)
+
+    class OwnRunProcess(_PP):
+        def run(self, *args, **kwargs):
+            return echo(*args, **kwargs)
+
+    class OwnRunRemote(_PR):
+        def run(self, *args, **kwargs):
+            return echo(*args, **kwargs)
+    OWNRUN = {'thread': OwnRunThread, 'process': OwnRunProcess, 'remote': OwnRunRemote}
+except ImportError:      # imported somewhere without the repository on the path: only the plain targets are usable
+    OWNRUN = {}
